@@ -10,7 +10,6 @@ object; R<c>,<l>,<ci> resize (Gaussian: R<l>,<ci>); A<qname> augmentWithNoise; p
 P<c>,<l>,<ci>,<q>,<base> `+=` a fresh filled set, Q... the same with operator+, D `+=` a copy of itself,
 E `x + x`.  Both sides print, after the constructor (step 0) and after each operation k, "<k>.<field>".
 """
-import json, os
 import numpy as np
 from vlib import caseio
 
@@ -25,9 +24,8 @@ REQUIRED_THEOREMS = ["C11_ctor_consistent", "C11_ctor_uniform_weights", "C11_inv
                      "C11_gauss_reachable", "C11_pset_inv", "C11_pset_reachable", "C11_accessors",
                      "C11_storage_is_concatenation_of_blocks", "C11_resize_components_preserves",
                      "C11_pset_resize_components_preserves", "C11_augment_content", "C11_augment_twice_content",
-                     "C11_concat_content", "C11_pset_augment_refuted"]
+                     "C11_pset_augment_content", "C11_concat_content"]
 TIMEOUT = 2400
-FINDING_PSET_AUGMENT = "C11:pset-augment:state-rows"
 
 RULE = ("operation sequences from one seeded stream over gm / gauss / pset objects: constructor layouts components 1..4 x "
         "linear 0..4 x circular 0..2 x Euler/quaternion (all three constructor overloads), then 1..12 (quick) / 1..60 (thorough) "
@@ -68,7 +66,6 @@ class Sh:
     def __init__(s, kind, c, l, ci, q):
         s.kind, s.c, s.l, s.ci, s.q, s.n = kind, c, l, ci, q, 0
         s.dcc = 4 if q else 1
-        s.psaug = False
 
     @property
     def dim(s):
@@ -82,14 +79,6 @@ class Sh:
         if (c, l, ci) == (s.c, s.l, s.ci):
             return
         s.c, s.l, s.ci, s.n = c, l, ci, 0
-
-
-def known_signatures():
-    p = os.path.join(os.path.dirname(os.path.dirname(os.path.abspath(__file__))), "known_findings.json")
-    try:
-        return {k.get("signature") for k in json.load(open(p)).get("findings", []) if k.get("property") == ID}
-    except (OSError, ValueError):
-        return set()
 
 
 def qmat(case, name, r, c, base):
@@ -122,7 +111,7 @@ def pick_resize(rng, sh):
     return rng.randint(1, 4), rng.randint(0, 4), rng.randint(0, 2)
 
 
-def random_case(rng, cid, tier, kind, allow_psaug):
+def random_case(rng, cid, tier, kind):
     lo, hi = LEN[tier]
     ctor = rng.choice(["full"] * 6 + ["two", "default"])
     if ctor == "default":
@@ -156,8 +145,6 @@ def random_case(rng, cid, tier, kind, allow_psaug):
         elif k < 0.78 or kind != "pset":
             r = rng.choice([0, 1, 1, 2, 2, 3, 3])
             cols = r if rng.random() < 0.88 else r + rng.choice([1, 2])
-            if kind == "pset" and r > 0 and cols == r and not allow_psaug:
-                continue
             if sh.dim + r > MAXDIM:
                 continue
             name = "q%d" % nq; nq += 1
@@ -165,9 +152,6 @@ def random_case(rng, cid, tier, kind, allow_psaug):
             toks.append("A" + name)
             if cols == r:
                 sh.n += r
-                if kind == "pset" and r > 0:
-                    sh.psaug = True
-                    break           # the state storage is now short: later operations are outside the model's premises
         else:
             kk = rng.random()
             if kk < 0.2:
@@ -178,10 +162,10 @@ def random_case(rng, cid, tier, kind, allow_psaug):
                 c2 = rng.randint(1, 3)
                 if sh.c + c2 > MAXC:
                     continue
-                l2, ci2, q2 = sh.l, sh.ci, sh.q
+                l2, ci2, q2 = sh.l + sh.n, sh.ci, sh.q      # equal dim and dim_covariance (noise counted as linear)
                 if rng.random() < 0.3:
                     if not sh.q:
-                        tot = sh.l + sh.ci
+                        tot = sh.l + sh.ci + sh.n
                         ci2 = rng.randint(0, min(2, tot)); l2 = tot - ci2
                         if ci2 == 0 and rng.random() < 0.5:
                             q2 = 1
@@ -192,8 +176,6 @@ def random_case(rng, cid, tier, kind, allow_psaug):
     case.word("ops", toks)
     case.meta["len"] = len(toks)
     case.meta["word"] = "".join(t[0] for t in toks)
-    if sh.psaug:
-        case.meta["psaug"] = 1
     return case
 
 
@@ -213,7 +195,7 @@ def exhaustive(cid0):
             else:
                 alpha += ["R%d,%d,%d" % ((cc,) + x) for cc in (1, 3) for x in lay]
             if kind == "pset":
-                alpha = [a for a in alpha if a not in ("A1", "A2")] + ["P", "D"]
+                alpha += ["P", "D"]
             for n in (1, 2, 3):
                 for seq in itertools.product(alpha, repeat=n):
                     case = caseio.Case(cid, kind, {"c": c, "l": l, "ci": ci, "q": q, "ctor": "full", "exh": 1})
@@ -232,7 +214,7 @@ def exhaustive(cid0):
                             else:
                                 sh.resize(*v)
                         elif a == "P":
-                            toks.append("P2,%d,%d,%d,%d" % (sh.l, sh.ci, sh.q, base)); base += 4000; sh.c += 2
+                            toks.append("P2,%d,%d,%d,%d" % (sh.l + sh.n, sh.ci, sh.q, base)); base += 4000; sh.c += 2
                         elif a == "D":
                             toks.append("D"); sh.c *= 2
                         else:
@@ -250,10 +232,9 @@ def exhaustive(cid0):
 
 def generate(rng, tier):
     cases = []
-    allow = FINDING_PSET_AUGMENT in known_signatures() or os.environ.get("C11_PSET_AUGMENT") == "1"
     for k in range(COUNTS[tier]):
         kind = rng.choice(["gm"] * 4 + ["gauss"] * 2 + ["pset"] * 5)
-        cases.append(random_case(rng, k, tier, kind, allow))
+        cases.append(random_case(rng, k, tier, kind))
     if tier == "thorough":
         cases += exhaustive(len(cases))
     return cases
@@ -311,8 +292,6 @@ def compare(c, impl, model):
                 want = 1
                 if c.kind == "pset":
                     name = "%d.model_ps_consistent" % k
-                    if c.meta.get("psaug") and k == steps(c):
-                        want = 0
                 if model.get(name) != want:
                     d.append("%s: the model's own invariant evaluates to %s" % (name, model.get(name)))
                 continue
@@ -373,14 +352,10 @@ def oracle(c, impl, model):
     kind = c.kind
     ops = c.get("ops") if c.has("ops") else []
     G = lambda k, f: impl.get("%d.%s" % (k, f))
-    psaug = False
 
     def add(k, clause, detail):
         op = "ctor" if k == 0 else optype(ops[k - 1])
-        if kind == "pset" and psaug and clause.startswith("state-"):
-            v.append((FINDING_PSET_AUGMENT, "step %d (%s): %s" % (k, op, detail)))
-        else:
-            v.append(("C11:%s:%s:%s" % (kind, op, clause), "step %d: %s" % (k, detail)))
+        v.append(("C11:%s:%s:%s" % (kind, op, clause), "step %d: %s" % (k, detail)))
 
     stopped = impl.get("stopped")
     last = steps(c) if stopped is None else stopped
@@ -388,10 +363,6 @@ def oracle(c, impl, model):
         if G(k, "components") is None:
             v.append(("C11:%s:no-output" % kind, "step %d missing" % k)); break
         tok = ops[k - 1] if k > 0 else None
-        if kind == "pset" and tok and tok[0] == "A":
-            r, cl = c.get(tok[1:] + ".r"), c.get(tok[1:] + ".c")
-            if r == cl and r > 0:
-                psaug = True
         n, quat, dcc, dim, dl, dc, dn, dcv = [G(k, f) for f in ("components", "quat", "dcc", "dim", "dl", "dc", "dn", "dcov")]
         mean, cov, w = G(k, "mean"), G(k, "cov"), G(k, "w")
         # --- Consistent
@@ -487,8 +458,8 @@ def oracle(c, impl, model):
                     break
             if not same(w, pw):
                 add(k, "augment-weights", "weights changed")
-            if pst is not None and not same(st, pst):
-                add(k, "augment-state-changed", "particle states changed")
+            if pst is not None and st.shape == (pdim + r, pn) and not (same(st[:pdim, :], pst) and same(st[pdim:, :], np.zeros((r, pn)))):
+                add(k, "state-augment", "particle states are not [x; 0]")
         if t in "PQDE":
             if t in "PQ":
                 R = fresh_rhs(tok)
